@@ -126,7 +126,7 @@ Section NPTop.
 
   Theorem expand_top_nopanic e w m : wfw w = true -> Q (expand_top users glob e w m).
   Proof.
-    intros H. unfold expand_top. pose proof (proj1 (nopanic users (4 * S (word_size w))) e w m H) as H1.
+    intros H. unfold expand_top. destruct (quoted_at_only e w m); [exact I|]. pose proof (proj1 (nopanic users (4 * S (word_size w))) e w m H) as H1.
     destruct (expand users (4 * S (word_size w)) e w m) as [[e1 fields]|[e1 x]| |]; cbn [Q] in *; try exact I; try contradiction.
     destruct (mbit m mLiteral); [exact I|]. destruct (mbit m mPattern); [exact I|].
     match goal with |- Q (match fold_left ?st ?l ?acc with _ => _ end) => assert (EF : Q (fold_left st l acc)) end.
